@@ -17,7 +17,7 @@ package lexer
 // call once per consumed rune.
 
 //@ func (*lexer).skipSpace
-//@   props C09
+//@   props C09 C19
 //@   requires l != nil && 0 <= l.Idx
 //@   requires #cursor l.Line == lineAt(l.input, l.Idx) && l.Col == colAt(l.input, l.Idx)
 //@   loop 1 invariant l.Line == lineAt(l.input, l.Idx) && l.Col == colAt(l.input, l.Idx)
@@ -34,7 +34,7 @@ package lexer
 //@   ensures #bound old(l.Idx) <= len(l.input) ==> l.Idx <= len(l.input)
 
 //@ func (*lexer).next
-//@   props C09
+//@   props C09 C19
 //@   uses dyncalls-pure
 //@   requires l != nil && 0 <= l.Idx && l.Idx <= len(l.input)
 //@   requires #cursor l.Line == lineAt(l.input, l.Idx) && l.Col == colAt(l.input, l.Idx)
